@@ -8,7 +8,8 @@ from p17 import in_conv_lp
 def run(R):
     import dreye
     nsys = 40 if R.tier == "quick" else 500
-    R.rule = ("systems with 2-4 receptors (dichromats included), finite ub, K none/scalar/vector, baseline 0/scalar/vector; "
+    R.rule = ("systems with 2-4 receptors (dichromats included), finite ub, lower bounds zero or positive (sources that cannot be switched off: 1/16-3/8 of ub, "
+              "uniform fraction or per source; the chromatic gamut is then spanned by the captures of all lb/ub corner intensities), K none/scalar/vector, baseline 0/scalar/vector; "
               "non-negative target sets mixing chromaticities inside and outside the chromatic gamut, rows below the (non-zero) baseline "
               "capture added to a set and whole dim sets whose negative light-induced parts exceed the largest positive one (mixed-sign "
               "light-induced parts under relative=True), all-zero rows (with targets "
@@ -35,14 +36,18 @@ def run(R):
         mrng = R.rng(9, si)
         below = str(mrng.choice(["none", "none", "none", "dim_set", "added_rows"]))
         bk, base = gen_baseline(rng, nf, kinds=(("zero", "zero", "scalar", "vector") if below == "none" else ("scalar", "vector")))
-        ub = dyadic(rng, 0.5, 4, 2, size=ns); lb = np.zeros(ns)
+        ub = dyadic(rng, 0.5, 4, 2, size=ns)
+        # lower bounds: zero, or sources with a non-zero minimal intensity (own random stream: the other draws of the system are unchanged)
+        lrng = R.rng(11, si)
+        lbk = str(lrng.choice(["zero", "zero", "zero", "uniform_fraction", "per_source"]))
+        lb = np.zeros(ns) if lbk == "zero" else ub * (float(dyadic(lrng, 0.0625, 0.375, 4)) if lbk == "uniform_fraction" else dyadic(lrng, 0.0625, 0.375, 4, size=ns))
         relative = bool(rng.integers(4) > 0)
         sysd = {True: apply_K(A, K, base), False: (A.copy(), np.zeros(nf))}    # the (A', base') a call with this flag works with
         Ap, bp = sysd[relative]
         filt = np.hstack([np.zeros((nf, 1)), A, np.zeros((nf, 1))]); src = np.hstack([np.zeros((ns, 1)), np.eye(ns), np.zeros((ns, 1))])
         est = lambda: dreye.ReceptorEstimator(filt, domain=1.0, K=(1.0 if K is None else K), baseline=base, sources=src, lb=lb, ub=ub)  # noqa: E731
         # targets: in-gamut captures, desaturated / oversaturated ones, zero row
-        X = dyadic(rng, 0.125, 0.875, 3, size=(4, ns)) * ub
+        X = lb + dyadic(rng, 0.125, 0.875, 3, size=(4, ns)) * (ub - lb)
         Bin = X @ Ap.T + bp
         mode = str(rng.choice(["mixed", "inside", "with_zero", "inside_with_zero", "single"]))
         Bout = Bin.copy()
@@ -81,17 +86,17 @@ def run(R):
                 Bt[0, 0] = 1.0
         neutral_kind = str(rng.choice(["default", "explicit"]))
         neutral = None
-        c = dict(k=k, nf=nf, ns=ns, A=A, K=K, K_kind=kk, baseline=base, baseline_kind=bk, ub=ub, relative=relative, mode=mode,
+        c = dict(k=k, nf=nf, ns=ns, A=A, K=K, K_kind=kk, baseline=base, baseline_kind=bk, lb=lb, lb_kind=lbk, ub=ub, relative=relative, mode=mode,
                  neutral_kind=neutral_kind, B=Bt, whole=whole)
         if neutral_kind == "default":
             # the default (equal-capture) neutral point must lie inside the chromatic gamut (the property's premise)
             from itertools import product as iprod
-            Pc = np.array([p_ / p_.sum() for p_ in (Ap @ (np.array(cr) * ub) + bp for cr in iprod([0, 1], repeat=ns)) if p_.sum() > 0])
+            Pc = np.array([p_ / p_.sum() for p_ in (Ap @ (lb + np.array(cr) * (ub - lb)) + bp for cr in iprod([0, 1], repeat=ns)) if p_.sum() > 0])
             ctr = Pc.mean(0); probe = ctr + (np.ones(nf) / nf - ctr) * 1.05
             if not in_conv_lp(Pc, probe, 1e-12):
                 neutral_kind = "explicit"; c["neutral_kind"] = "explicit"
         if neutral_kind == "explicit":
-            neutral = (Ap @ (ub * dyadic(rng, 0.25, 0.75, 2, size=ns)) + bp)    # a capture inside the gamut, non-uniform
+            neutral = (Ap @ (lb + (ub - lb) * dyadic(rng, 0.25, 0.75, 2, size=ns)) + bp)    # a capture inside the gamut, non-uniform
             c["neutral_point"] = neutral
         # ---- call history: fresh estimator per call, or every call of this system on one estimator
         hrng = R.rng(7, si)
@@ -104,7 +109,7 @@ def run(R):
             order = [order[i] for i in hrng.permutation(len(order))]
         c["history"] = history
         c["calls"] = [("dist" if o == "dist" else "l1(relative=%s)" % flags[int(o[3:])]) for o in order]
-        for key in ("K_kind", "baseline_kind", "mode", "neutral_kind", "history"):
+        for key in ("K_kind", "baseline_kind", "lb_kind", "mode", "neutral_kind", "history"):
             R.count("%s:%s" % (key, c[key]))
         R.count("nf:%d" % nf); R.count("relative:%s" % relative); R.count("whole_int_targets:%s" % whole)
         for r in sorted(set(flags)):
@@ -198,7 +203,7 @@ def run(R):
         P = []
         from itertools import product as iprod
         for corner in iprod([0, 1], repeat=c["ns"]):
-            p = Ap @ (np.array(corner) * c["ub"]) + bp
+            p = Ap @ (c["lb"] + np.array(corner) * (c["ub"] - c["lb"])) + bp
             if np.sum(np.abs(p)) > 0:
                 P.append(p / p.sum())
         P = np.array(P)
